@@ -57,6 +57,10 @@ def main():
     out = {"patch": patch}
     # the patch was written against an older HEAD of /repo: if it does not apply any more, merge it (3-way) in a scratch
     # worktree and continue with the resulting diff against the current HEAD
+    hand = patch.replace(".diff", ".rebased.diff")
+    if sh(f"git -C /repo apply --check {patch}").returncode != 0 and os.path.exists(hand) and sh(f"git -C /repo apply --check {hand}").returncode == 0:
+        patch = hand          # merged by hand onto a later fix: commit
+        out["rebased"] = hand
     if sh(f"git -C /repo apply --check {patch}").returncode != 0:
         wt = tempfile.mkdtemp(prefix="evalrebase-", dir="/tmp")
         os.rmdir(wt)
